@@ -543,6 +543,7 @@ def run(ctx):
     from . import C09
 
     imported(ctx, C09.rule_P)
+    _premises.caches(ctx)
 
 
 # Self-test catalogue: one textual edit each, applied to a scratch copy (see selftest.py).
